@@ -35,7 +35,7 @@ theorem Staged.congr_engine {s0 g0 s s' t t' g g'} (h : Staged s0 g0 s t g) (hi 
 theorem StagedL.congr_engine {s0 g0 s s' t g} (h : StagedL s0 g0 s t g) (hi : s'.interner = s.interner) :
     StagedL s0 g0 s' t g := by
   refine { next := h.next, extEq := h.extEq, ids := h.ids, extPt := h.extPt, extLt := h.extLt, extNZ := h.extNZ,
-           extND := h.extND, labels := by rw [hi]; exact h.labels, labelsInt := by rw [hi]; exact h.labelsInt,
+           extND := h.extND, extIdND := h.extIdND, labels := by rw [hi]; exact h.labels, labelsInt := by rw [hi]; exact h.labelsInt,
            labelsLt := h.labelsLt, addOK := by rw [hi]; exact h.addOK, delOK := by rw [hi]; exact h.delOK,
            createdLid := by rw [hi]; exact h.createdLid, deadLt := h.deadLt, small := by rw [hi]; exact h.small }
 
